@@ -105,6 +105,10 @@ from contracts import c10_options  # noqa: E402
 
 # the context-wide policy reaches the hasher through _CryptConfig._init_options (a later item for a slot replaces the earlier one)
 CONTRACTS += [c for c in c10_options.CONTRACTS if c.id.endswith(("[0]", "[1]", "[2]"))]
+from contracts import bigcrypt as _big  # noqa: E402
+
+# formats without a limit depend on every byte: every 8-byte block enters bigcrypt's digest chain / bsdi_crypt's key
+CONTRACTS += [_big.contract("C05"), _big.bsdi_key_contract("C05")]
 BOUNDED = [Bounded("c05", "harness/c05.py", descr="boundary-length multi-byte passwords on all truncating hashers; 4095/4096/4097; NUL positions", timeout=900)]
 
 MUTANTS = [
